@@ -3,18 +3,15 @@ CONSTANTS
   NU = 3
   NE = 2
   HexUsers = {1, 2}
-  NSpell = 1
+  NSpell = 3
   MinerExecs = {1}
-  Amts = {1, 9, 10}
+  Amts = {0, 1, 9, 10}
   GenAmts = {5, 899}
   OpLimit = 10
   BalLimit = 900
   IntMax = 922
   Inits <- MCInits
   Ops <- AllOps
-  MaxOps = 3
-  EmitOn = FALSE
-VIEW view
-INVARIANTS TypeOK NonNeg NoOverflow SupplyOK ExecIdentity
-PROPERTIES SupplyRule DepRule ErrNoChange Separation
+  MaxOps = 8
+  EmitOn = TRUE
 CHECK_DEADLOCK FALSE
